@@ -254,7 +254,12 @@ func (r *FnRun) freshVal(st *State, t types.Type, hint string) Val {
 	case KOpaque:
 		return Val{K: KOpaque, S: r.fresh(hint, "Ref"), T: t}
 	case KSeq:
-		return Val{K: KSeq, S: r.fresh(hint, "BSeq"), T: t}
+		sv := r.fresh(hint, "BSeq")
+		if t != nil {
+			// a Go string value lives in memory: its length is an int
+			st.assume(sx("<=", sx("blen", sv), "9223372036854775807"))
+		}
+		return Val{K: KSeq, S: sv, T: t}
 	case KArr:
 		return Val{K: KArr, S: r.fresh(hint, "(Array Int Int)"), T: t}
 	case KSlice:
@@ -442,7 +447,11 @@ func (r *FnRun) load1(st *State, p string, t types.Type, hint string) Val {
 	case KOpaque:
 		return Val{K: KOpaque, T: t, S: r.bind(st, sx("select", st.heap["R"], p), hint, "Ref")}
 	case KSeq:
-		return Val{K: KSeq, T: t, S: r.bind(st, sx("select", st.heap["S"], p), hint, "BSeq")}
+		sv := r.bind(st, sx("select", st.heap["S"], p), hint, "BSeq")
+		if t != nil {
+			st.assume(sx("<=", sx("blen", sv), "9223372036854775807"))
+		}
+		return Val{K: KSeq, T: t, S: sv}
 	case KArr:
 		return Val{K: KArr, T: t, S: r.bind(st, sx("select", st.heap["A"], p), hint, "(Array Int Int)")}
 	case KSlice:
